@@ -37,7 +37,9 @@ VDoc == << [k |-> "root", p |-> 0, sp |-> <<>>, lo |-> <<>>, v |-> <<>>],
            El(2, <<"w">>), Tx(32, <<"I","n","f","i","n","i","t","y">>), El(2, <<"w">>), Tx(34, <<"nl", "4", "tab">>),  \* 32..35 w = "Infinity", "\n4\t"
            \* numerals of more than 400 digits: they convert to +-Infinity (a sum can reach an infinity and must still go on adding)
            El(2, <<"h">>), Tx(36, <<"1", "Z400">>), El(2, <<"h">>), Tx(38, <<"-", "9", "Z400">>),   \* 36..39 h = 10^400, -9*10^400
-           El(2, <<"g">>), Tx(40, <<"2", "Z400">>), El(2, <<"g">>), Tx(42, <<"a">>), El(2, <<"g">>), Tx(44, <<"5">>) >>   \* 40..45 g = 2*10^400, "a", "5"
+           El(2, <<"g">>), Tx(40, <<"2", "Z400">>), El(2, <<"g">>), Tx(42, <<"a">>), El(2, <<"g">>), Tx(44, <<"5">>),    \* 40..45 g = 2*10^400, "a", "5"
+           \* the spellings number-to-string produces for the non-finite values are not numerals: as node text they are NaN
+           El(2, <<"u">>), Tx(46, <<"N","a","N">>), El(2, <<"u">>), Tx(48, <<"-","I","n","f","i","n","i","t","y">>) >>    \* 46..49 u = "NaN", "-Infinity"
 ASSUME WellFormed(VDoc)
 Named(nm) == Abs(<<DoS, Step("child", T_name("", nm))>>)
 
@@ -95,7 +97,7 @@ NsOps == << NsOp(<<>>, Named(<<"q">>)), NsOp(<<3, 5>>, Named(<<"a">>)), NsOp(<<7
             NsOp(<<5, 9, 3, 7>>, NoE), NsOp(<<9, 3, 12, 5>>, NoE),   \* ... and in no order at all: the first node in document order (3) sits in the middle
             NsOp(<<3, 12, 5, 9>>, NoE),                              \* ... or comes first and is followed by a descent
             NsOp(<<24, 26>>, Named(<<"x">>)), NsOp(<<28, 30>>, Named(<<"y">>)), NsOp(<<32, 34>>, Named(<<"w">>)),
-            NsOp(<<36, 38>>, Named(<<"h">>)), NsOp(<<40, 42, 44>>, Named(<<"g">>)), NsOp(<<40, 44>>, NoE) >>
+            NsOp(<<36, 38>>, Named(<<"h">>)), NsOp(<<40, 42, 44>>, Named(<<"g">>)), NsOp(<<40, 44>>, NoE), NsOp(<<46, 48>>, Named(<<"u">>)), NsOp(<<46>>, NoE) >>
 CmpNums == SubSeq(NumOps, 1, 13) \o <<NumOp(R(3, 2)), NumOp(R(1, 2))>>
 AllOps == NsOps \o CmpNums \o StrOps \o BoolOps
 
@@ -120,7 +122,7 @@ Odd == << <<"I","n","f","i","n","i","t","y">>, <<"-","I","n","f","i","n","i","t"
 (* the chooser                                                             *)
 (***************************************************************************)
 PoolA == CASE Family = "C05" -> AllOps
-           [] Family = "C06" -> NumOps \o NsOps
+           [] Family = "C06" -> NumOps \o NsOps \o BoolOps
            [] Family = "C04n" -> NumOps
            [] Family = "C04v" -> NsOps
            [] Family = "C04s" -> SeqsOf(NumAlpha, H1) \o Odd
@@ -128,7 +130,7 @@ PoolA == CASE Family = "C05" -> AllOps
            [] Family \in {"C07b", "C07t"} -> SeqsOf({"a", "b", "w2"}, 3)
            [] Family = "C07s" -> << <<"a", "w2", "b", "w4", "c">>, <<"1", "2", "3", "4", "5">>, <<>>, <<"w3", "cm">> >>
 PoolB == CASE Family = "C05" -> AllOps
-           [] Family = "C06" -> NumOps \o NsOps
+           [] Family = "C06" -> NumOps \o NsOps \o BoolOps
            [] Family \in {"C04n", "C04v"} -> <<0>>
            [] Family = "C04s" -> SeqsOf(NumAlpha, H2)
            [] Family = "C07u" -> SeqsOf(StrAlpha, H2)
@@ -173,7 +175,7 @@ ASSUME Family = "C05" => \E i \in 1..Len(NsOps), j \in 1..Len(NsOps) :
 (***************************************************************************)
 (* C06                                                                     *)
 (***************************************************************************)
-Ops6 == NumOps \o NsOps
+Ops6 == NumOps \o NsOps \o BoolOps    \* (a boolean operand is 1 or 0: true() + 1 = 2)
 S_floor == <<"f","l","o","o","r">>
 S_ceiling == <<"c","e","i","l","i","n","g">>
 S_round == <<"r","o","u","n","d">>
@@ -232,7 +234,10 @@ C04nLaws == (Ready /\ Family = "C04n") =>
 C04nCases == LET x == NumOps[a] env == Env1(x.val) IN
   << Obj(env, F1(S_string, XVar)), Obj(env, F2(S_concat, XVar, Lit(<<>>))), Obj(env, F1(S_boolean, XVar)), Obj(env, F1(S_not, F1(S_not, XVar))),
      Obj(env, F1(S_number, F1(S_string, XVar))), Obj(env, F1(<<"s","t","r","i","n","g","-","l","e","n","g","t","h">>, XVar)),
-     Obj(env, Abs(<<DoS, StepP("child", T_any, <<XVar>>)>>)), Obj(env, Bin("and", XVar, Lit(<<"a">>))), Obj(env, Bin("or", XVar, Lit(<<>>))) >>
+     Obj(env, Abs(<<DoS, StepP("child", T_any, <<XVar>>)>>)), Obj(env, Bin("and", XVar, Lit(<<"a">>))), Obj(env, Bin("or", XVar, Lit(<<>>))),
+     \* a number compared with a boolean is converted to a boolean first, on whichever side it stands: 2 = true()
+     Obj(env, Bin("eq", XVar, BoolOps[1].e)), Obj(env, Bin("eq", BoolOps[1].e, XVar)), Obj(env, Bin("ne", XVar, BoolOps[2].e)), Obj(env, Bin("eq", BoolOps[2].e, XVar)),
+     Obj(env, Bin("ne", XVar, BoolOps[1].e)), Obj(env, Bin("eq", XVar, BoolOps[2].e)) >>
   \o (IF x.e.op # "none" THEN << Obj(env, F1(S_string, x.e)), Obj(env, F1(S_boolean, x.e)) >> ELSE <<>>)
 
 StrAB == IF a <= Len(SeqsOf(NumAlpha, H1)) THEN PoolA[a] \o PoolB[b] ELSE PoolA[a]
@@ -335,7 +340,9 @@ C04vCases == LET A == NsOps[a] env == EnvV(A.val) IN
      Obj(env, NegE(XVar)), Obj(env, Bin("add", XVar, IntE(0))), Obj(env, F1(<<"n","a","m","e">>, XVar)), Obj(env, F1(<<"l","o","c","a","l","-","n","a","m","e">>, XVar)),
      Obj(env, F2(S_sw, XVar, Lit(<<"1">>))), Obj(env, F1(S_norm, XVar)), Obj(env, F1(S_not, XVar)), Obj(env, F1(S_round, XVar)),
      Obj(env, F1(S_string, Pk)), Obj(env, F1(S_number, Pk)), Obj(env, F1(S_boolean, Pk)), Obj(env, F2(S_sa, Pk, Lit(<<"1">>))), Obj(env, Bin("mul", Pk, IntE(2))),
-     Obj(env, F3(S_tr, XVar, Lit(<<"1">>), Lit(<<"9">>))), Obj(env, F3(S_sub, Lit(<<"a","b","c">>), XVar, IntE(1))) >>
+     Obj(env, F3(S_tr, XVar, Lit(<<"1">>), Lit(<<"9">>))), Obj(env, F3(S_sub, Lit(<<"a","b","c">>), XVar, IntE(1))),
+     \* a node-set compared with a boolean is converted as a whole (true iff non-empty), not node by node
+     Obj(env, Bin("eq", XVar, BoolOps[1].e)), Obj(env, Bin("eq", BoolOps[2].e, XVar)), Obj(env, Bin("ne", XVar, BoolOps[1].e)), Obj(env, Bin("ne", BoolOps[2].e, Pk)) >>
   \o (IF A.e.op # "none" THEN << Obj(env, F1(S_string, A.e)), Obj(env, F1(S_number, A.e)), Obj(env, F1(S_boolean, A.e)) >> ELSE <<>>)
 
 Cases == CASE Family = "C05" -> C05Cases [] Family = "C04v" -> C04vCases [] Family = "C06" -> C06Cases [] Family = "C04n" -> C04nCases [] Family = "C04s" -> C04sCases
